@@ -83,5 +83,11 @@ META["C08"] = {"engine": "P-persistence", "design_ref": "DESIGN.md §4 Engine P,
                "level_text": ("Fault enumeration over crash points of the newest append file and its value file: drawn offsets covering the header and all 64 residues in the quick tier, every byte offset of the file "
                               "for a quarter of the thorough cases (exhaustive per case, flagged in evidence). Each crash point costs two to four real restarts."),
                "level_note": "Trusted: truncation as the crash model (system-call boundary, no page-cache loss); in-package snapshot comparison; the C07 known findings are excluded by construction."}
+ENGINES["P-persistence"]["props"] = ["C07", "C08", "C16"]
+META["C16"] = {"engine": "P-persistence", "design_ref": "DESIGN.md §4 Engine P, §5 C16",
+               "technique": "fault injection by enumeration of the compaction's file-system mutations (verif hook points copy the directory) over rapid-generated histories; metamorphic oracle: every crash image recovers (twice) to the state recovered from the pre-compaction image",
+               "level_text": ("Fault enumeration: for each generated history every crash point of one compaction (all hook points after file-system mutations) is recovered twice and compared with the pre-compaction recovery. "
+                              "The enumeration is complete for the mutations of that compaction, not for compactions racing with appends."),
+               "level_note": "Trusted: hook placement (add-only verifYield calls in the rewrite path), directory copy inside the hook callback as crash image, in-package snapshot; two genuine crash windows are listed as known findings and skipped."}
 _NOT_BUILT = "check not built yet in this session (planned in DESIGN.md); not claimed rather than faked"
 NOT_APPLICABLE = {f"C{i:02d}": _NOT_BUILT for i in range(1, 21)}
